@@ -29,6 +29,7 @@ func init() {
 func runC06(c *core.Ctx) {
 	c.Rule("R06.5", "what is at an entry's path is examined without following links (validator, healer, bowl)")
 	ruleNoFollow(c, "R06.5", "/pwr", "/pwr/bowl")
+	ruleWoundsAreOwnedByTheMessage(c, "R05.7")
 	c.Rule("R06.1", "wound kinds emitted ⊆ kinds handled by the healer")
 	c.Rule("R06.2", "Lstat/Readlink errors in the dir/symlink passes are returned only after testing not-exist AND not-a-directory")
 	c.Rule("R06.3", "repair actions of the DIR / SYMLINK / FILE cases")
